@@ -753,7 +753,7 @@ impl<T: ObjectStore, M: SidecarMeta> SidecarStore<T, M> {
     where
         F: Fn(&Path, &M) -> Result<()>,
     {
-        let mut retried = false;
+        let mut missing: Option<Option<String>> = None;
         loop {
             let src = self.get_meta(from).await?;
             verify(from, &src)?;
@@ -774,9 +774,12 @@ impl<T: ObjectStore, M: SidecarMeta> SidecarStore<T, M> {
                     // The cached source pointer — generational or legacy —
                     // may be stale after a concurrent overwrite: the
                     // generation was replaced and reclaimed, or the legacy
-                    // payload was migrated away. Re-resolve once.
-                    if !retried {
-                        retried = true;
+                    // payload was migrated away. Re-resolve for as long as
+                    // the pointer keeps moving; give up only when the very
+                    // generation that was just re-resolved is missing.
+                    let generation = src.generation().map(String::from);
+                    if missing.as_ref() != Some(&generation) {
+                        missing = Some(generation);
                         self.refresh_meta(from).await?;
                         continue;
                     }
